@@ -5,7 +5,7 @@
       (controlled scheduler; abstract state compared after every step = conformance);
    3. TLC evaluates the property predicates of Obs.tla on the traces recorded from the real code
       (TraceObs.tla).  Only step 3 produces a VIOLATION."""
-import glob, json, os, random, re, subprocess, tempfile, time
+import fnmatch, glob, json, os, random, re, subprocess, tempfile, time
 
 from common import *
 
@@ -138,6 +138,8 @@ def validate(lines, invs):
 def run(pid, tier, spec, replay_file=None, extra=None):
     t0 = time.time()
     res = {'mc': [], 'states': 0, 'transitions': 0, 'generated': {}}
+    if not replay_file:
+        clear_replays(pid)
     harness = build_harness()
     if replay_file:
         behs = json.load(open(replay_file))
@@ -190,7 +192,7 @@ def run(pid, tier, spec, replay_file=None, extra=None):
             tr = cur_lines[r['first_line'] - 1: r['first_line'] - 1 + r['lines']]
             upto = tr[: ln - r['first_line'] + 1]
             sig = spec.get('signature', lambda inv, tr, beh: inv)(inv, [json.loads(x) for x in upto], beh)
-            match = next((f for f in kf if f.get('signature') == sig), None)
+            match = next((f for f in kf if fnmatch.fnmatchcase(sig, f.get('signature', ''))), None)
             if match:
                 known_hits.append((match, r['id']))
             else:
